@@ -9,8 +9,10 @@ package main
 
 import (
 	"fmt"
+	"math/big"
 	"os"
 	"path/filepath"
+	"reflect"
 	"regexp"
 	"sort"
 	"strings"
@@ -18,6 +20,7 @@ import (
 
 	"github.com/antlr4-go/antlr/v4"
 	"github.com/specterops/dawgs/cypher/frontend"
+	"github.com/specterops/dawgs/cypher/models/cypher"
 	"github.com/specterops/dawgs/cypher/parser"
 )
 
@@ -393,3 +396,108 @@ func payloadCases(rng *Rng, n int) (cases []string, uncovered []string) {
 }
 
 func init() { _ = fmt.Sprintf }
+
+// ---------------------------------------------------------------------------------- integer literal values
+
+// integerTokenValues: an independent big-integer reading of every integer literal of the text that stands in a literal position
+// (oC_NumberLiteral / oC_IntegerLiteral of the raw ANTLR tree): decimal, 0x…, 0o….
+func integerTokenValues(text string) []string {
+	lexer := parser.NewCypherLexer(antlr.NewInputStream(text))
+	lexer.RemoveErrorListeners()
+	p := parser.NewCypherParser(antlr.NewCommonTokenStream(lexer, antlr.TokenDefaultChannel))
+	p.RemoveErrorListeners()
+	var out []string
+	var walk func(t antlr.Tree)
+	walk = func(t antlr.Tree) {
+		if il, ok := t.(*parser.OC_IntegerLiteralContext); ok {
+			if _, inLiteral := il.GetParent().(*parser.OC_NumberLiteralContext); inLiteral {
+				txt := il.GetText()
+				v := new(big.Int)
+				base := 10
+				if len(txt) > 2 && txt[0] == '0' && (txt[1] == 'x' || txt[1] == 'X' || txt[1] == 'o' || txt[1] == 'O') {
+					base = 0
+				}
+				if _, ok := v.SetString(txt, base); ok {
+					out = append(out, v.String())
+				} else {
+					out = append(out, "?"+txt)
+				}
+			}
+			return
+		}
+		for i := 0; i < t.GetChildCount(); i++ {
+			walk(t.GetChild(i))
+		}
+	}
+	func() {
+		defer func() { _ = recover() }()
+		walk(p.OC_Cypher())
+	}()
+	sort.Strings(out)
+	return out
+}
+
+// modelIntegerValues: every integer held by a cypher.Literal of the model (reflection walk)
+func modelIntegerValues(model any) []string {
+	var out []string
+	seen := map[uintptr]bool{}
+	var walk func(v reflect.Value, depth int)
+	walk = func(v reflect.Value, depth int) {
+		if !v.IsValid() || depth > 2000 {
+			return
+		}
+		switch v.Kind() {
+		case reflect.Pointer:
+			if v.IsNil() || seen[v.Pointer()] {
+				return
+			}
+			seen[v.Pointer()] = true
+			if lit, ok := v.Interface().(*cypher.Literal); ok && lit != nil {
+				switch x := lit.Value.(type) {
+				case int64:
+					out = append(out, big.NewInt(x).String())
+				case int:
+					out = append(out, big.NewInt(int64(x)).String())
+				case uint64:
+					out = append(out, new(big.Int).SetUint64(x).String())
+				}
+			}
+			walk(v.Elem(), depth+1)
+		case reflect.Interface:
+			if !v.IsNil() {
+				walk(v.Elem(), depth+1)
+			}
+		case reflect.Struct:
+			for i := 0; i < v.NumField(); i++ {
+				walk(v.Field(i), depth+1)
+			}
+		case reflect.Slice, reflect.Array:
+			for i := 0; i < v.Len(); i++ {
+				walk(v.Index(i), depth+1)
+			}
+		case reflect.Map:
+			it := v.MapRange()
+			for it.Next() {
+				walk(it.Value(), depth+1)
+			}
+		}
+	}
+	walk(reflect.ValueOf(model), 0)
+	sort.Strings(out)
+	return out
+}
+
+// intLiteralCheck: for an ACCEPTED text the integers the model holds are exactly the integers written (as multisets)
+func intLiteralCheck(text string, model any) string {
+	want, got := integerTokenValues(text), modelIntegerValues(model)
+	if strings.Join(want, ",") == strings.Join(got, ",") {
+		return "same"
+	}
+	clipJoin := func(xs []string) string {
+		if len(xs) > 6 {
+			xs = append(append([]string{}, xs[:6]...), "…")
+		}
+		return strings.Join(xs, "/")
+	}
+	return "differ:text=" + clipJoin(want) + ";model=" + clipJoin(got)
+}
